@@ -74,6 +74,12 @@ Shapes == {
                                 on |-> AndE(CmpE("<=", ColP(<<"x", "a">>), ColP(<<"y", "c">>)), Fn("boomt", <<LN(1)>>))]]],
   [pos |-> "leftjoinon", q |-> [BaseQ EXCEPT !.from = [k |-> "join", type |-> "left", kw |-> "", l |-> Table(<<"t">>, "x"), r |-> Table(<<"u">>, "y"),
                                 on |-> AndE(Fn("boomt", <<LN(1)>>), CmpE(">", ColP(<<"x", "a">>), ColP(<<"y", "c">>)))]]],
+  \* the statement that owns the failing FROM (a CTE body, a derived table, a join condition) carries a window of its own
+  [pos |-> "ctelimit", q |-> [SelQ(<<Star>>, Table(<<"c">>, ""), None) EXCEPT !.with = <<[name |-> "c", q |-> SelQ(<<I(Boom(A), "a")>>, T, None)]>>, !.limit = 5]],
+  [pos |-> "derivedlimit", q |-> [SelQ(<<I(ColP(<<"x", "a">>), "")>>, Derived(SelQ(<<I(Boom(A), "a")>>, T, None), "x"), None) EXCEPT !.limit = 1, !.offset = 1]],
+  [pos |-> "joinonlimit",  q |-> [BaseQ EXCEPT !.limit = 9, !.from = [k |-> "join", type |-> "inner", kw |-> "", l |-> Table(<<"t">>, "x"), r |-> Table(<<"u">>, "y"),
+                                on |-> AndE(CmpE("<=", ColP(<<"x", "a">>), ColP(<<"y", "c">>)), Fn("boomt", <<LN(1)>>))]]],
+  [pos |-> "derivedorder", q |-> [SelQ(<<I(ColP(<<"x", "a">>), "")>>, Derived(SelQ(<<I(Boom(A), "a")>>, T, None), "x"), None) EXCEPT !.order = <<[key |-> <<"a">>, asc |-> FALSE]>>, !.limit = 2]],
   \* failures the query raises by itself on some row
   [pos |-> "raise_when", q |-> SelQ(<<I(A, ""), I(Fn("raise_when", <<CmpE(">", A, LN(3)), LS(<<98, 97, 100>>)>>), "")>>, T, None)],
   [pos |-> "raise_where", q |-> SelQ(<<I(A, ""), I(Fn("raise", <<LS(<<98, 97, 100>>)>>), "r")>>, T, CmpE(">", A, LN(3)))],
